@@ -49,7 +49,7 @@ MANIFEST = dict(
          'answered with the rejection status and a fault and leaves the state unchanged; a regular response is only given if all '
          'stages succeeded; the deferred worker of the consumer endpoint survives every handler exception, hands every queued '
          'request to its handler and drains a full queue (no blocked on_post); on a persistent connection a request with unreadable '
-         'framing is answered 400 and ends the connection (nothing behind it is executed); the chunked reader terminates on every byte string '
+         'framing is answered 400 and ends the connection (nothing behind it is executed); a burst of Set requests on a full operation queue is answered (Wait, then Fail), never waited for; the chunked reader terminates on every byte string '
          '(C17); every parser site that sees peer data has resolve_entities / network / DTD loading off (generated, decide). The '
          'skeleton is compared with the real do_post/do_get/do_POST/do_GET/_read_queue by exhaustive fault injection.',
     note='PARTIAL by nature: libxml2 (parsing, entity handling, termination), lxml schema validation and the bodies of the '
@@ -240,7 +240,8 @@ class Session:
     """provider + consumer of the real library wired together without sockets"""
     P_NETLOC, C_NETLOC = '127.0.0.1:50001', '127.0.0.1:50002'
 
-    def __init__(self):
+    def __init__(self, validate=True):
+        self.validate = validate
         import sdc11073.definitions_sdc  # noqa: F401
         from sdc11073.consumer.consumerimpl import SdcConsumer, default_components_factory
         from sdc11073.dispatch.pathelementregistry import PathElementRegistry
@@ -257,12 +258,12 @@ class Session:
         pc = provider_components_sync_factory()
         pc.soap_client_class = self.Loop
         self.dev = SomeDevice.from_mdib_file(MockWsDiscovery('127.0.0.1'), None, os.path.join(REPO, 'tests', '70041_MDIB_Final.xml'),
-                                             max_subscription_duration=7200, components=pc)
+                                             max_subscription_duration=7200, components=pc, validate=validate)
         self.dev.start_all(start_rtsample_loop=False, shared_http_server=self.psrv)
         cc = default_components_factory()
         cc.soap_client_class = self.Loop
         self.cons = SdcConsumer(self.dev.get_xaddrs()[0], sdc_definitions=self.dev.mdib.sdc_definitions, ssl_context_container=None,
-                                components=cc)
+                                components=cc, validate=validate)
         self.cons.start_all(not_subscribed_actions=periodic_actions, shared_http_server=self.csrv)
         self._script()
         self.requests = [r for r in self.Loop.log if r['netloc'] == self.P_NETLOC and r['body']]
@@ -370,6 +371,42 @@ class Session:
                 return True
         return False
 
+    def stored_strings(self, consumer=False):
+        """what the handlers kept from requests besides the MDIB: subscriptions (addresses, reference parameters, filters); for the
+        consumer endpoint its MDIB mirror"""
+        from lxml import etree
+        out = []
+
+        def walk(o, depth):
+            if isinstance(o, str):
+                out.append(o.encode('utf-8', 'replace'))
+            elif isinstance(o, bytes):
+                out.append(o)
+            elif hasattr(o, 'tag') and hasattr(o, 'attrib'):
+                try:
+                    out.append(etree.tostring(o))
+                except Exception:  # noqa: BLE001
+                    pass
+            elif depth > 0:
+                if isinstance(o, (list, tuple, set)):
+                    for x in list(o)[:200]:
+                        walk(x, depth - 1)
+                elif isinstance(o, dict):
+                    for x in list(o.values())[:200]:
+                        walk(x, depth - 1)
+                elif hasattr(o, '__dict__') and type(o).__module__.startswith('sdc11073'):
+                    for k, x in list(vars(o).items()):
+                        if k not in ('_mgr', '_soap_client_pool', '_msg_factory', '_logger', 'descriptor_container', 'node'):
+                            walk(x, depth - 1)
+        if consumer:
+            for st in list(self.cmdib.states.objects) + list(self.cmdib.context_states.objects):
+                walk(st, 5)
+        else:
+            for mgr in self.dev._subscriptions_managers.values():
+                for sub in list(mgr._subscriptions.objects):
+                    walk(sub, 4)
+        return b'\n'.join(out)
+
     def settle(self, quiet=0.03):
         """wait until asynchronous effects of an accepted request (sco worker, subscription housekeeping) are through"""
         last, since = self.fingerprint(), time.time()
@@ -445,6 +482,21 @@ def session():
                 except Exception:  # noqa: BLE001  (reported by the oracle of run(), not here)
                     pass
     return _SESSION
+
+
+_SESSION_NOVAL = None
+
+
+def session_novalidate():
+    """the same wiring with endpoints that were configured with validate=False (schema validation off)"""
+    global _SESSION_NOVAL
+    if _SESSION_NOVAL is None:
+        c17.enable_library_logging()
+        main = _SESSION
+        _SESSION_NOVAL = Session(validate=False)
+        if main is not None:     # the loop-back client class is per session, nothing to restore
+            pass
+    return _SESSION_NOVAL
 
 
 def mk_hdr(extra=()):
@@ -1081,15 +1133,17 @@ def check_soap_body(status, body, want_fault):
     return None
 
 
-def post_real(ctx, sess, mw, endpoint, kind, path, body, ent, hdr_extra=(), full=False, record=None):
+def post_real(ctx, sess, mw, endpoint, kind, path, body, ent, hdr_extra=(), full=False, record=None, tag=None):
     """one request through a live MessageConverterMiddleware with all oracles"""
     case = {'kind': 'request', 'endpoint': endpoint, 'mutation': kind, 'path': path, 'body': c17.hx(body) if len(body) < 20000 else None,
             'body_len': len(body), 'headers': list(hdr_extra)}
+    if tag:
+        case['session'] = tag
     provider = endpoint == 'provider'
     before = sess.fingerprint() if provider else None
     dump_before = sess.full_dump() if (provider and full) else None
     r = WD.call(mw.do_post, mk_hdr(hdr_extra), path, ('127.0.0.1', 40001), body)
-    sig = f'{endpoint}:{kind.split(":")[0]}'
+    sig = f'{endpoint}{"[" + tag + "]" if tag else ""}:{kind.split(":")[0]}'
     if r[0] == 'hang':
         ctx.fail('do_post:hang', f'{sig}: MessageConverterMiddleware.do_post does not return', case)
         return None
@@ -1117,9 +1171,13 @@ def post_real(ctx, sess, mw, endpoint, kind, path, body, ent, hdr_extra=(), full
         blob = bytes(out) if isinstance(out, (bytes, bytearray)) else b''
         if provider:
             sess.settle()
-            blob += sess.full_dump()
-        if MARKER.encode() in blob or SECRET.encode() in blob:
-            ctx.fail('entity:expanded', f'{sig}: expansion of a declared entity shows up in the answer or in the MDIB', case)
+            blob += sess.full_dump() + sess.stored_strings()
+        elif ent is not None:
+            time.sleep(0.02)     # deferred processing of the notification
+            blob += sess.stored_strings(consumer=True)
+        if MARKER.encode() in blob or SECRET.encode() in blob or b'EXPANDED_C13' in blob.replace(b'"EXPANDED_C13"', b''):
+            ctx.fail('entity:expanded', f'{sig}: expansion of a declared entity shows up in the answer, in the MDIB or in what the endpoint '
+                     f'stored (subscriptions){" [endpoint built with " + tag + "]" if tag else ""}', case)
         if LISTENER.contacted():
             ctx.fail('entity:external-fetch', f'{sig}: a connection to the URL of an external entity / DTD was opened', case)
     # a rejected request (error status, or a fault whatever the status) changes nothing
@@ -1186,7 +1244,7 @@ def mutation_stream(ctx, sess):
         m = re.search(rb'Action[^>]*>([^<]*)<', r['body'])
         by_type.setdefault((m.group(1) if m else b'?', r['path'].split('/')[-1]), r)
     types_ = list(by_type.values())
-    n = ctx.n(1100, 8500)
+    n = ctx.n(850, 8500)
     sample_every = 10 if ctx.tier == 'quick' else 6
     for i in range(n):
         rec = types_[i % len(types_)] if i < 4 * len(types_) else rng.choice(pool)
@@ -1199,7 +1257,7 @@ def mutation_stream(ctx, sess):
     # consumer endpoint: notifications the provider really sent, mutated
     pooln = sess.notifications
     if pooln:
-        for i in range(ctx.n(400, 3500)):
+        for i in range(ctx.n(320, 3500)):
             if _enough(ctx):
                 break
             rec = rng.choice(pooln)
@@ -1207,6 +1265,57 @@ def mutation_stream(ctx, sess):
             post_real(ctx, sess, sess.c_mw, 'consumer', kind, path, body, ent)
     else:
         ctx.count('consumer:no-notifications-recorded')
+
+
+def mutate_entity(rng, rec, pool):
+    """a request with an internal DTD subset whose entities are referenced from ATTRIBUTE values (libxml2 substitutes them there even
+    with resolve_entities=False) or from text"""
+    from lxml import etree
+    body, path = rec['body'], rec['path']
+    root = etree.fromstring(body)
+    elems = [e for e in root.iter() if isinstance(e.tag, str)]
+    name, doctype, ref = rng.choice([d for d in DOCTYPES if d[2]])
+    if '%d' in doctype:
+        doctype = doctype % LISTENER.port
+    token = 'C13ENTITYREF'
+    with_attr = [e for e in elems if e.attrib]
+    deep = [e for e in elems if etree.QName(e.tag).localname in ('Identifier', 'ReferenceParameters', 'NotifyTo', 'EndTo', 'Filter', 'Address',
+                                                                  'MetricValue', 'MetricQuality', 'State', 'ReportPart')]
+    r = rng.random()
+    if r < 0.4 and with_attr:
+        e = rng.choice(with_attr)
+        e.set(rng.choice(list(e.attrib)), token)
+        where = 'attribute'
+    elif r < 0.75:
+        e = rng.choice(deep or elems)
+        e.set('c13attr', token)
+        where = 'new-attribute'
+    else:
+        leafs = [e for e in elems if len(e) == 0]
+        rng.choice(leafs).text = token
+        where = 'text'
+    data = etree.tostring(root).replace(token.encode(), ref.encode())
+    return f'entity:{name}:{where}', path, b'<?xml version="1.0"?>' + doctype.encode() + data, name
+
+
+def novalidate_stream(ctx):
+    """endpoints that were built with validate=False: a DOCTYPE is refused there as well, nothing a request declares is expanded into
+    what the handlers answer or store"""
+    sess = session_novalidate()
+    rng = ctx.subrng('novalidate')
+    for endpoint, mw, pool in (('provider', sess.p_mw, sess.requests), ('consumer', sess.c_mw, sess.notifications)):
+        if not pool:
+            continue
+        subs = [r for r in pool if b'NotifyTo' in r['body']]
+        for i in range(ctx.n(50, 600)):
+            if _enough(ctx):
+                break
+            rec = rng.choice(subs) if (subs and rng.random() < 0.4) else rng.choice(pool)
+            if rng.random() < 0.12:
+                kind, path, body, ent = 'valid', rec['path'], rec['body'], None
+            else:
+                kind, path, body, ent = mutate_entity(rng, rec, pool)
+            post_real(ctx, sess, mw, endpoint, kind, path, body, ent, tag='validate=False')
 
 
 def _is_state_changing_valid(kind, rec):
@@ -1352,6 +1461,69 @@ def deferred_correspondence(ctx, B, classes):
     one(5, [(i, None) for i in range(1, 30)], 'more-than-capacity')
 
 
+def operation_queue_history(ctx, sess):
+    """a provider whose operation handler is still running while more valid Set requests arrive than the operation queue holds:
+    every request must be answered (InvocationState Wait, or Fail once the queue is full) - none may block"""
+    recs = [r for r in sess.requests if re.search(rb'<[a-z0-9]*:?(SetString|SetValue)[ >]', r['body'])]
+    op = reg_ = rec = None
+    for r in recs:
+        m = re.search(rb'OperationHandleRef>([^<]*)<', r['body'])
+        for reg in sess.dev._sco_operations_registries.values():
+            o = reg.get_operation_by_handle(m.group(1).decode()) if m else None
+            if o is not None and getattr(o, 'delayed_processing', False) and getattr(reg, '_worker', None) is not None:
+                op, reg_, rec = o, reg, r
+        if op is not None:
+            break
+    if op is None:
+        ctx.count('operation-queue:skipped')
+        return
+    gate, started = threading.Event(), threading.Event()
+    orig = op.execute_operation
+
+    def held(request, operation_request):
+        started.set()
+        gate.wait(60)
+        return orig(request, operation_request)
+    op.execute_operation = held
+    cap = reg_._worker._operations_queue.maxsize or 10
+    burst = cap + 4
+    case = {'kind': 'operation-queue', 'path': rec['path'], 'body': c17.hx(rec['body']), 'burst': burst, 'queue': cap}
+    saved = c17.W_TIMEOUT
+    c17.W_TIMEOUT = 6.0
+    states = []
+    try:
+        for i in range(burst):
+            r = WD.call(sess.p_mw.do_post, mk_hdr(), rec['path'], ('127.0.0.1', 40001), rec['body'])
+            if r[0] == 'hang':
+                ctx.fail('do_post:hang', f'request {i + 1} of {burst} valid Set requests gets no answer: the handler of the first one is still '
+                         f'running, the operation queue ({cap} slots) is full, and the request thread blocks instead of answering Fail', case)
+                break
+            if r[0] == 'exc':
+                ctx.fail('do_post:exception-escapes', f'operation burst, request {i + 1}: {type(r[1]).__name__}', case)
+                break
+            st, _, out = r[1]
+            m = re.search(rb'InvocationState>([A-Za-z]*)<', out if isinstance(out, (bytes, bytearray)) else b'')
+            states.append((st, m.group(1).decode() if m else None))
+        ctx.count('operation-queue:' + ','.join(sorted({f'{a}/{b}' for a, b in states})))
+        if ctx.driver_ok and len(states) == burst and started.is_set():
+            # the worker took the first operation off the queue (its handler is the one that is held): the rest is a burst on an empty queue
+            model = 'Wait ' + ctx.driver('drv_c13', [f'opburst {cap} 0 {burst - 1}'])[0]
+            impl = ' '.join(str(b) for _, b in states)
+            if model != impl:
+                ctx.disagree('opBurst == InvocationState answers of a burst of Set requests while a handler is running', case, model, impl)
+        ctx.case({'k': 'opqueue', 'burst': burst, 'states': states}, nontrivial=True,
+                 sample={'operation_queue_history': f'{burst} Set requests while the handler is held: {states}'})
+    finally:
+        gate.set()
+        c17.W_TIMEOUT = saved
+        time.sleep(0.2)
+        try:
+            del op.execute_operation
+        except AttributeError:
+            pass
+        sess.settle(quiet=0.3)
+
+
 def consumer_history(ctx, sess):
     """the live consumer endpoint after a notification whose handler raised: the next ones are still processed, and do_post keeps
     returning when more notifications follow than the queue holds"""
@@ -1430,7 +1602,7 @@ def http_stream(ctx, sess, L):
     server = types.SimpleNamespace(dispatcher=sess.psrv.dispatcher, supported_encodings=list(L.CH.available_encodings), chunk_size=0,
                                    logger=c17.real_logger())
     pool = sess.requests
-    for i in range(ctx.n(400, 3500)):
+    for i in range(ctx.n(320, 3500)):
         if _enough(ctx):
             break
         rec = rng.choice(pool)
@@ -1632,6 +1804,8 @@ def run(ctx):
     ctx.notes['background_workers_stopped'] = sess.stopped_workers
     try:
         mutation_stream(ctx, sess)
+        novalidate_stream(ctx)
+        operation_queue_history(ctx, sess)
         consumer_history(ctx, sess)
         http_stream(ctx, sess, L)
         parser_oracle(ctx)
@@ -1691,13 +1865,14 @@ def _run_case(ctx, L, case):
                      f'after {case["max_responses"]}', case)
         ctx.case({'k': 'corpus', 'r': case['raw'][:80]})
     elif k == 'request' and case.get('body') is not None:
-        sess = session()
+        sess = session_novalidate() if case.get('session') == 'validate=False' else session()
         mw = sess.p_mw if case.get('endpoint', 'provider') == 'provider' else sess.c_mw
         path = case['path']
         if case.get('relative_path'):
             path = sess.requests[0]['path'].rsplit('/', 1)[0] + '/' + case['relative_path']
         post_real(ctx, sess, mw, case.get('endpoint', 'provider'), case.get('mutation', 'corpus'), path, c17.unhx(case['body']),
-                  'corpus' if case.get('entity') else None, hdr_extra=[tuple(x) for x in case.get('headers', [])], full=True)
+                  'corpus' if (case.get('entity') or str(case.get('mutation', '')).startswith('entity')) else None,
+                  hdr_extra=[tuple(x) for x in case.get('headers', [])], full=True, tag=case.get('session'))
     elif k == 'inject-do_post':
         classes = {c[0]: c for c in exception_classes()}
         got, _ = run_do_post({s: classes[n] for s, n in case['stages'].items()})
@@ -1712,6 +1887,8 @@ def _run_case(ctx, L, case):
             ctx.fail('deferred:worker-dead' if not alive else 'deferred:request-not-handled', f'handled {handled}, alive {alive}, blocked {stuck}', case)
     elif k == 'consumer-history':
         consumer_history(ctx, session())
+    elif k == 'operation-queue':
+        operation_queue_history(ctx, session())
     elif k in ('inject-do_POST', 'inject-do_GET'):
         classes = {c[0]: c for c in exception_classes()}
         table = {s: classes[n] for s, n in case['stages'].items() if n in classes}
@@ -1735,6 +1912,7 @@ def search(ctx):
             deferred_correspondence(ctx, B, classes)
         if not ctx.failures:
             sess = session()
+            operation_queue_history(ctx, sess)
             consumer_history(ctx, sess)
         if not ctx.failures:
             sess = session()
@@ -1758,7 +1936,7 @@ def replay(ctx, obj):
     before = len(ctx.failures)
     if case.get('kind') == 'request' and case.get('body') is not None:
         # the session of the replay has other uuids than the recording one: keep the service part of the path
-        sess = session()
+        sess = session_novalidate() if case.get('session') == 'validate=False' else session()
         prefix = (sess.requests[0]['path'] if case.get('endpoint', 'provider') == 'provider' else sess.notifications[0]['path']).split('/')[1]
         parts = case['path'].split('/')
         if len(parts) > 1 and re.fullmatch(r'[0-9a-f]{32}', parts[1] or ''):
